@@ -6,6 +6,8 @@ arguments are recovered from it)."""
 from harness.core import Case
 from harness import clientlib as cl, reqcommon, isospec
 
+WIDE = 200000        # thorough tier: histories of the wide correspondence stream (widegen.py), judged by the model and the generic rule
+WIDE_QUICK = 2000
 PROP = 'C01'
 EXHAUSTIVE = False
 RULE = ('same argument space as C07, judged only where the call is in the documented domain: sent frame == ISO encoding; plus '
